@@ -99,6 +99,8 @@ class LegacyDFXPWriter(BaseWriter):
     def write(self, caption_set, force=''):
         caption_set = deepcopy(caption_set)
         caption_set = merge_concurrent_captions(caption_set)
+        # a caption with an unclosed style node must not leak into the next write
+        self.open_span = False
 
         dfxp = BeautifulSoup(LEGACY_DFXP_BASE_MARKUP, 'lxml-xml')
         dfxp.find('tt')['xml:lang'] = "en"
